@@ -93,3 +93,9 @@ package rapidcore
 //@   ensures [deliver-marks-sent] srvBuffered(s, invokeID) && !readFails(payload) && readerLen(payload) <= interop.MaxPayloadSize && r0 == nil ==> s.invokeCtx.ReplySent && unchanged(s.invokeCtx)
 //@   ensures [sent-only-on-success] srvAccepts(s, invokeID) && !old(s.invokeCtx.Direct) && r0 != nil ==> !s.invokeCtx.ReplySent
 //@   ensures [keeps-reservation] old(s.invokeCtx) == nil || !old(s.invokeCtx.Direct) ==> unchanged(s.invokeCtx)
+
+// C10 / C07: the goroutines started by Invoke must not crash the process.
+
+//@ func (*Server).Invoke$2
+//@   safety on
+//@   requires s != nil && invoke != nil
